@@ -632,7 +632,138 @@ impl Model for ClientGoaway {
     }
 }
 
+// ---------------------------------------------------------------------------------------------
+// T1 half: real client <-> real server, shutdown requested while streams are in every state, every schedule / chunking with
+// <= k deviations
+
+use crate::c01::{check_fidelity, full_policy, run_t1_property, sequence, Item, T1Harness};
+use crate::scen::{Cfg, Dir, Ev as LEv, MsgSpec, RecvMode, Scenario, StreamSpec, T1};
+
+fn judge_c15_t1(h: &T1Harness, t: &mut T1, end: RunEnd) -> V3 {
+    let mut v = vec![];
+    if end == RunEnd::Horizon {
+        v.push(("C15.no-quiescence".to_string(), "horizon".into(), "the exchange did not quiesce after the shutdown".into()));
+        return v;
+    }
+    let log = t.log.snapshot();
+    // (1) per sender: last-stream-ids never increase
+    for side in [Side::Client, Side::Server] {
+        let ids: Vec<u32> = t.mon.frames.iter().filter(|f| f.sender == side).filter_map(|f| if let Ok(Parsed::GoAway { last, .. }) = &f.parsed { Some(*last) } else { None }).collect();
+        if ids.windows(2).any(|w| w[1] > w[0]) {
+            v.push(("C15.last-stream-id-increased".into(), side.name().into(), format!("{} sent GOAWAY frames with last-stream-ids {:?}", side.name(), ids)));
+        }
+    }
+    // the server's final cut-off
+    let server_goaways: Vec<(u32, u32)> = t.mon.frames.iter().filter(|f| f.sender == Side::Server).filter_map(|f| if let Ok(Parsed::GoAway { last, code, .. }) = &f.parsed { Some((*last, *code)) } else { None }).collect();
+    let Some(&(l, code)) = server_goaways.last() else { return v };
+    let sid_of = |k: usize| log.iter().find_map(|r| if r.side == Side::Client && r.k == k && r.dir == Dir::Req && r.submitted { if let LEv::StreamId(s) = r.ev { Some(s) } else { None } } else { None });
+    for k in 0..h.sc.streams.len() {
+        let accepted = log.iter().any(|r| r.side == Side::Server && r.k == k && r.dir == Dir::Req && !r.submitted && matches!(r.ev, LEv::Head(_)));
+        let Some(sid) = sid_of(k) else {
+            // never got an identifier: no new stream after the GOAWAY - the attempt fails with the peer's reason (a hang
+            // is C07's business)
+            let e = log.iter().find_map(|r| if r.side == Side::Client && r.k == k && r.dir == Dir::Req && r.submitted { if let LEv::Err(e) = &r.ev { Some(e.clone()) } else { None } } else { None });
+            if let Some(e) = e {
+                let ok = server_goaways.iter().any(|g| e.contains(&format!("remote:goaway:{}", g.1))) || (code != 0 && e.contains("io:"));
+                if !ok {
+                    v.push(("C15.new-stream-wrong-error".into(), e.chars().filter(|c| !c.is_ascii_digit()).collect(), format!("request #{} could not be started after the server's GOAWAY(code {}); it failed with '{}' instead of the peer's reason", k, code, e)));
+                }
+            }
+            continue;
+        };
+        // (2) never below a stream handed to the application
+        if accepted && sid > l && code == 0 {
+            v.push(("C15.last-stream-id-below-accepted".into(), "t1".into(), format!("the server's final GOAWAY has last-stream-id {} but stream {} (#{}) had been handed to its application", l, sid, k)));
+        }
+        let resp = sequence(&log, Side::Client, k, &Dir::Resp, false);
+        let resp_err = log.iter().find_map(|r| if r.side == Side::Client && r.k == k && r.dir == Dir::Resp && !r.submitted { if let LEv::Err(e) = &r.ev { Some(e.clone()) } else { None } } else { None });
+        if sid > l {
+            // (3) above the cut-off: not processed; the client's handle fails with the peer's reason
+            if accepted && code == 0 {
+                // covered by (2)
+            }
+            if resp.iter().any(|i| matches!(i, Item::Head(_))) && !accepted {
+                v.push(("C15.stream-above-goaway-completed".into(), "t1".into(), format!("stream {} (#{}) is above the server's last-stream-id {} and was never handed to its application, yet the client got a response", sid, k, l)));
+            }
+            match &resp_err {
+                Some(e) if e.contains(&format!("remote:goaway:{}", code)) || (server_goaways.len() > 1 && server_goaways.iter().any(|g| e.contains(&format!("remote:goaway:{}", g.1)))) => {}
+                Some(e) if code != 0 && (e.contains("io:") || e.contains("remote:reset")) => {}
+                Some(e) => v.push(("C15.stream-above-goaway-wrong-error".into(), e.chars().filter(|c| !c.is_ascii_digit()).collect(), format!("stream {} (#{}) above the last-stream-id {} failed with {}, expected the peer's GOAWAY reason (code {})", sid, k, l, e, code))),
+                None => {
+                    if !resp.iter().any(|i| matches!(i, Item::Head(_))) {
+                        v.push(("C15.handle-unresolved-after-goaway".into(), "above".into(), format!("stream {} (#{}) above the last-stream-id {}: the response future neither failed nor completed", sid, k, l)));
+                    }
+                }
+            }
+        } else if code == 0 && accepted {
+            // (4) at or below the cut-off of a graceful shutdown: runs to completion (both directions)
+            let f = check_fidelity(&Scenario { name: String::new(), cfg: h.sc.cfg.clone(), streams: h.sc.streams.clone() }, &log, &t.mon, true, true);
+            for (rule, sig, what) in f.vios {
+                if what.contains(&format!("stream #{} ", k)) {
+                    v.push(("C15.in-flight-stream-not-finished".into(), format!("{}:{}", rule, sig), format!("graceful shutdown, stream {} (#{}) is at or below the last-stream-id {}: {}", sid, k, l, what)));
+                }
+            }
+        }
+    }
+    // (5) both connection futures complete; after a graceful shutdown with NO_ERROR both report success
+    for c in ["connC", "connS"] {
+        if !t.exec.is_done(c) {
+            v.push(("C15.graceful-shutdown-not-completed".into(), c.into(), format!("{} has not completed after GOAWAY(last {}, code {})", c, l, code)));
+        }
+    }
+    let conn_result = |side: Side| log.iter().rev().find_map(|r| if r.side == side && r.k == usize::MAX { if let LEv::Err(e) = &r.ev { if e.starts_with("conn:") { Some(e.clone()) } else { None } } else { None } } else { None });
+    if let Some(r) = conn_result(Side::Client) {
+        if code != 0 && !r.contains(&format!("remote:goaway:{}", code)) && !r.contains("io:") {
+            v.push(("C15.connection-result".into(), r.chars().filter(|c| !c.is_ascii_digit()).collect(), format!("the server sent GOAWAY(code {}), the client's connection future returned '{}'", code, r)));
+        }
+        if code == 0 && r != "conn: ok" {
+            v.push(("C15.connection-result".into(), r.chars().filter(|c| !c.is_ascii_digit()).collect(), format!("graceful shutdown (NO_ERROR), the client's connection future returned '{}'", r)));
+        }
+    }
+    v
+}
+
+pub fn c15_t1_scenarios() -> Vec<Scenario> {
+    let m = |c: &[usize]| MsgSpec::simple(c);
+    let mk = |name: &str, cfg: Cfg, streams: Vec<StreamSpec>| Scenario { name: name.to_string(), cfg, streams };
+    vec![
+        // shutdown after the first accept, two more requests race the GOAWAY
+        mk("graceful-after-1-of-3", Cfg { graceful_after: Some(1), ..Cfg::default() }, vec![StreamSpec::new(m(&[3, 3]), m(&[3])), StreamSpec::new(m(&[2]), m(&[2])), StreamSpec::new(m(&[]), m(&[1]))]),
+        mk("graceful-after-2-of-3-late-readers", Cfg { graceful_after: Some(2), ..Cfg::default() }, vec![StreamSpec { c_recv: RecvMode::Late, s_recv: RecvMode::Late, ..StreamSpec::new(m(&[5]), m(&[5, 5])) }, StreamSpec::new(m(&[]), m(&[2])), StreamSpec::new(m(&[4]), m(&[]))]),
+        mk("graceful-with-parked-request", Cfg { graceful_after: Some(1), s_max_concurrent: Some(1), c_initial_max_send_streams: Some(1), ..Cfg::default() }, vec![StreamSpec::new(m(&[3]), m(&[3])), StreamSpec::new(m(&[]), m(&[2]))]),
+        mk("graceful-window7", Cfg { graceful_after: Some(1), c_stream_window: Some(7), s_stream_window: Some(7), ..Cfg::default() }, vec![StreamSpec::new(m(&[20]), m(&[16])), StreamSpec::new(m(&[]), m(&[2]))]),
+        // requests that start late: around the first GOAWAY, around the final one, after it
+        mk("graceful-late-requests", Cfg { graceful_after: Some(1), ..Cfg::default() }, vec![StreamSpec::new(m(&[3]), m(&[3])), StreamSpec { c_start_delay: 4, ..StreamSpec::new(m(&[]), m(&[2])) }, StreamSpec { c_start_delay: 9, ..StreamSpec::new(m(&[2]), m(&[1])) }]),
+        mk("graceful-very-late-request", Cfg { graceful_after: Some(1), keep_send_request: true, ..Cfg::default() }, vec![StreamSpec { s_recv: RecvMode::Late, ..StreamSpec::new(m(&[3, 3]), m(&[3])) }, StreamSpec { c_start_delay: 16, ..StreamSpec::new(m(&[]), m(&[2])) }]),
+        mk("abrupt-late-request", Cfg { abrupt_after: Some((1, 2)), ..Cfg::default() }, vec![StreamSpec::new(m(&[3]), m(&[3])), StreamSpec { c_start_delay: 5, ..StreamSpec::new(m(&[]), m(&[2])) }]),
+        mk("abrupt-after-1-of-3", Cfg { abrupt_after: Some((1, 2)), ..Cfg::default() }, vec![StreamSpec::new(m(&[3, 3]), m(&[3])), StreamSpec::new(m(&[2]), m(&[2])), StreamSpec::new(m(&[]), m(&[1]))]),
+        mk("abrupt-code-0xdeadbeef", Cfg { abrupt_after: Some((2, 0xdead_beef)), ..Cfg::default() }, vec![StreamSpec::new(m(&[3]), m(&[3])), StreamSpec::new(m(&[]), m(&[2]))]),
+    ]
+}
+
+pub fn replay_t1(v: &serde_json::Value) -> bool {
+    let name = v["scenario_name"].as_str().unwrap_or("");
+    let scs = c15_t1_scenarios();
+    let mut v2 = v.clone();
+    if let Some(i) = scs.iter().position(|s| s.name == name) {
+        v2["scenario"] = json!(i);
+    }
+    crate::c01::replay(&v2, &scs, "C15", judge_c15_t1, full_policy())
+}
+
 pub fn run(ctx: &Ctx) -> Outcome {
+    let mut out = with_budget_scale(0.62, || run_x2(ctx));
+    let max_dev = if ctx.tier.is_quick() { 2 } else { 3 };
+    let mut t1 = run_t1_property(ctx, "C15", &c15_t1_scenarios(), judge_c15_t1, max_dev, full_policy(), &[]);
+    t1.coverage.remove("mechanism_counters");
+    t1.coverage.remove("samples");
+    t1.coverage.remove("rule");
+    out.absorb(t1);
+    out.assume("T1 half: shutdown is requested by the server application right after its n-th accept; the moment relative to everything else varies with the explored schedules and chunkings");
+    out
+}
+
+fn run_x2(ctx: &Ctx) -> Outcome {
     let mut out = Outcome::default();
     let quick = ctx.tier.is_quick();
     let budget = ctx.tier.budget_s();
@@ -644,7 +775,7 @@ pub fn run(ctx: &Ctx) -> Outcome {
     fill_outcome(&mut out, &[(m1.name, &r1), (m2.name, &r2)]);
     out.set("exhaustive", json!(false));
     out.set("alphabet", json!({"server": m1.events.iter().map(|e| format!("{:?}", e)).collect::<Vec<_>>(), "client": m2.events.iter().map(|e| format!("{:?}", e)).collect::<Vec<_>>()}));
-    out.set("rule", json!("X2 on T2, both roles. Real server with two accepted streams: graceful_shutdown, abrupt_shutdown(code), respond, push_request, drop handles; peer opens new streams racing the GOAWAY, acknowledges the shutdown PING early / late, ends its requests, sends its own GOAWAY (last 0 / 1 / 3 / 2^31-1, codes 0 / 2). Invariants: emitted last-stream-ids never increase and are never below a stream already returned by accept(); after GOAWAY(L) streams above L are neither surfaced nor answered; push_request fails once the peer's GOAWAY has been processed. Epilogue: graceful shutdown = GOAWAY(2^31-1), PING, after its ACK GOAWAY(last processed), accepted streams answered, transport shut down, Ok(()). Real client with two requests in flight: peer GOAWAY (last 0 / 1 / 3 / 5 / 2^31-1, codes 0 / 2 / 0xdeadbeef, with / without debug data, up to two, never increasing), responses, EOF, new requests, poll_ready. Invariants: no send_request / poll_ready success and no new HEADERS after the GOAWAY was processed; streams above L fail with origin remote / kind GOAWAY / the peer's code and debug data. Epilogue: streams <= L complete, nothing stays pending, the connection result carries the peer's code"));
+    out.set("rule", json!("X2 on T2, both roles. Real server with two accepted streams: graceful_shutdown, abrupt_shutdown(code), respond, push_request, drop handles; peer opens new streams racing the GOAWAY, acknowledges the shutdown PING early / late, ends its requests, sends its own GOAWAY (last 0 / 1 / 3 / 2^31-1, codes 0 / 2). Invariants: emitted last-stream-ids never increase and are never below a stream already returned by accept(); after GOAWAY(L) streams above L are neither surfaced nor answered; push_request fails once the peer's GOAWAY has been processed. Epilogue: graceful shutdown = GOAWAY(2^31-1), PING, after its ACK GOAWAY(last processed), accepted streams answered, transport shut down, Ok(()). Real client with two requests in flight: peer GOAWAY (last 0 / 1 / 3 / 5 / 2^31-1, codes 0 / 2 / 0xdeadbeef, with / without debug data, up to two, never increasing), responses, EOF, new requests, poll_ready. Invariants: no send_request / poll_ready success and no new HEADERS after the GOAWAY was processed; streams above L fail with origin remote / kind GOAWAY / the peer's code and debug data. Epilogue: streams <= L complete, nothing stays pending, the connection result carries the peer's code. T1 half (harness t1-scenarios): real client <-> real server, the server application calls graceful_shutdown / abrupt_shutdown(code) after its n-th accept while further requests race the GOAWAY (also parked behind the concurrency limit, with 7-octet windows, late readers); every execution with <= 2 (thorough 3) deviations in schedule, partial writes / reads at structural offsets and spurious Pendings; the same rules judged from the wire and both API logs"));
     out.add_sample(json!({"harness": format!("x2.{}", m1.name), "depth": 3, "choices": [1, 4, 5]}));
     let mut vs = VioSet::default();
     vs.merge(r1.agg.vios);
